@@ -26,6 +26,10 @@ SPEC = dict(
              n=dict(quick=30, thorough=800), timeout=dict(quick=300, thorough=1500),
              ev=dict(requires=["V.lib.Bytes", "V.models.Conflict"], case_type="Conflict.case",
                      mismatch="Conflict.mismatch", monitor="Conflict.monitor_fail")),
+        dict(name="snapshots", kind="test", pkg="./overlord/snapshotstate", run="TestVerifC14Snapshots",
+             n=dict(quick=20, thorough=600), timeout=dict(quick=300, thorough=1500),
+             ev=dict(requires=["V.lib.Bytes", "V.models.Conflict"], case_type="Conflict.case",
+                     mismatch="Conflict.mismatch", monitor="Conflict.monitor_fail")),
     ],
     classify=classify,
     rule=("direct: one synthetic change in a fresh state, EVERY combination of kind (the 7 special-cased exclusive kinds, the 2 exempt "
@@ -44,7 +48,10 @@ SPEC = dict(
           "pre-download / remodel) on the plug snap, the slot snap or an unrelated snap in progress and after it finished, and asked "
           "twice in a row (45 histories in the quick tier) + 30 random histories; recorded like the history driver; the model operation "
           "names the two snaps of the connection as checked and the affected snaps of the tasks created, the monitor also demands "
-          "that the tasks of an accepted request affect only checked snaps. Non-trivial = at least one change present (direct) / a "
+          "that the tasks of an accepted request affect only checked snaps. snapshots: snapshotstate.Save (one / two snaps), Restore "
+          "(whole set / one snap of it), Check, Forget with another change (install-snap / pre-download / remodel) on a snap of the "
+          "request or another snap in progress and finished, asked twice (29 histories) + 20 random; a refused Save must not allocate "
+          "a snapshot set id (checked by the driver). Non-trivial = at least one change present (direct) / a "
           "rejected and two accepted requests (history)."),
     exhaustive=dict(quick=False, thorough=True),
     trusted_base=[
@@ -60,7 +67,9 @@ SPEC = dict(
         "the per-snap invariant is about requests that go through the conflict check and whose tasks affect only snaps they checked (req_wf); "
         "call sites that create tasks without calling CheckChangeConflict* are outside the model (which API calls the check is tied by the "
         "history and iface drivers for Remove/Disable/Enable/Revert/Switch/Update/Install, Alias/DisableAllAliases/Prefer, "
-        "ifacestate.Connect/Disconnect/Forget; snapshots, quota and service requests, RemoveManualAlias are not exercised)",
+        "ifacestate.Connect/Disconnect/Forget, snapshotstate.Save/Restore/Check/Forget, CheckChangeConflictRunExclusively (direct); "
+        "devicestate.Remodel and the recovery-system requests themselves, quota and service requests, RemoveManualAlias, snapctl-initiated "
+        "requests are not exercised)",
         "a finished change is final: no progress events or tasks are added to a change whose tasks are all ready (Change.IsReady is sticky in the code)",
         "a change without tasks counts as ready (Change.Status() is Hold); Change.IsReady() is false for it but it has no task to conflict with",
         "which conflicting change the error names depends on map iteration order and is not compared; only conflict / no conflict is",
